@@ -7,6 +7,7 @@ import torch
 from torch import Tensor
 
 from torchtree.core.identifiable import Identifiable
+from torchtree.core.parameter import TransformedParameter
 from torchtree.core.utils import process_objects, register_class
 from torchtree.distributions.gmrf import GMRF
 from torchtree.evolution.coalescent import AbstractCoalescentModel
@@ -158,6 +159,16 @@ class GMRFPiecewiseCoalescentBlockUpdatingOperator(MCMCOperator):
     def _step(self) -> Tensor:
         coalescent = self.coalescent.distribution()
         gamma = self.gmrf.field.tensor
+        # the proposal densities below are densities of the field and of the
+        # precision; when one of them is a transformed parameter the chain moves
+        # in the parameter behind it and the ratio carries the change of the
+        # log Jacobian of the transform
+        transformed = [
+            p
+            for p in (self.gmrf.field, self.gmrf.precision)
+            if isinstance(p, TransformedParameter)
+        ]
+        log_jacobian = sum(p().sum() for p in transformed)
         sufficient_statistics, coalescent_counts = coalescent.sufficient_statistics(
             self.coalescent.tree_model.node_heights
         )
@@ -217,7 +228,8 @@ class GMRFPiecewiseCoalescentBlockUpdatingOperator(MCMCOperator):
         log_q_backward = diagonal[diagonal > 0.0000001].log().sum() - 0.5 * (
             diagonal1 @ diagonal3
         )
-        return log_q_backward - log_q_forward
+        proposed_log_jacobian = sum(p().sum() for p in transformed)
+        return log_q_backward - log_q_forward + log_jacobian - proposed_log_jacobian
 
     def _state_dict(self) -> dict[str, Any]:
         return {"scaler": self._scaler}
